@@ -330,15 +330,15 @@ def run(tier, seed):
                     viol.append(Violation(key=f"transpile:measurement-value-changed:{c['meas'][mi]['t']}",
                                           detail=f"measurement {replay['measurements'][mi]} of {replay['circuit']} on graph {replay['edges']}: "
                                                  f"expected {np.round(e, 6).tolist()} got {np.round(gv, 6).tolist()}", replay=replay))
-    if stats["routed_calls"] < 20 or not n_err_ok:
-        raise lib.MachineryError(f"vacuous run: routed {stats['routed_calls']}, wide-gate errors {n_err_ok}")
+    if stats["routed_calls"] < 20 or not stats["wide_gate_calls"]:
+        raise lib.MachineryError(f"vacuous run: routed {stats['routed_calls']}, wide-gate calls {stats['wide_gate_calls']}")
     cov = {"states": gres.distinct + r.distinct + est["distinct"] + vst["distinct"],
            "transitions": gres.generated + r.generated + est["generated"] + vst["generated"],
            "traces_validated_against_impl": n_real_traces, "evaluations": stats["calls"],
            "distinct_nontrivial": len(nontrivial),
            "rule": "every connected labelled graph on 3-5 nodes is enumerated by TLC (770); per graph seeded circuits of <= 5 (+1) gates; "
                    "non-trivial = distinct (graph, circuit) for which transpile inserted at least one SWAP",
-           "samples": samples, "exhaustive": tier != "quick", "unitary_relations_decided": len(ecases) - n_neg_e_all,
+           "samples": samples, "exhaustive": False, "graphs_exhaustive": tier != "quick", "unitary_relations_decided": len(ecases) - n_neg_e_all,
            "measurement_values_compared": n_val, "documented_errors_confirmed": n_err_ok,
            "negative_controls_rejected": nneg_t + nneg_e + neg_v, **stats}
     return CheckResult(coverage=cov, violations=viol, assumptions=[
